@@ -475,6 +475,7 @@ func runC11(p *Prog, r *Report) {
 	c11R5(p, r)
 	updateFlagRule(p, r, "C11.R7")
 	constructorUnguardedRule(p, r, "C11.R8")
+	updateNoDelegateRule(p, r, "C11.R9")
 	mustAssignRule(p, r, "C11.R6")
 }
 
